@@ -190,6 +190,59 @@ def c04(run):
                 step_oracles=(oracles.referenced_stable, oracles.last_delete_and_guard), theorems=th, retrieve_bound=True)
     seq_project(run, "P-seq[C04]/small-scope", small_scope_triples(rng, 400 if quick else None, meta=True),
                 step_oracles=(oracles.referenced_stable, oracles.last_delete_and_guard), theorems=th, retrieve_bound=True)
+    c04_cid_spellings(run)
+
+
+def c04_cid_spellings(run):
+    """search: a cid is the string the caller gives.  Other spellings of the cid of a REFERENCED object (upper case, mixed case) name
+    other cids: tagging a pid to such a spelling and deleting it again, or delete_if_invalid_object with such a spelling and
+    mismatching expectations, must leave the referenced object and its pids alone."""
+    import hashlib
+    import os
+    import shutil
+    from universe import scratch_root, exn_name, DEFAULT_NS
+    import hashstore.filehashstore as fhs
+    base = scratch_root()
+    try:
+        for d_, w_ in ((3, 2), (1, 4)):
+            hs = fhs.FileHashStore({"store_path": os.path.join(base, "s%d%d" % (d_, w_)), "store_depth": d_, "store_width": w_, "store_algorithm": "SHA-256",
+                                    "store_metadata_namespace": DEFAULT_NS})
+            data = b"shared content " * 40 + bytes([d_])
+            src = os.path.join(base, "x%d" % d_)
+            with open(src, "wb") as fh:
+                fh.write(data)
+            hs.store_object("pid.a", src)
+            m = hs.store_object("pid.b", src)
+            cid = m.cid
+            for sp in (cid.upper(), cid[:10].upper() + cid[10:], cid.capitalize()):
+                if sp == cid:
+                    continue
+                steps = []
+                for what, f in (("tag_object(c, spelling)", lambda: hs.tag_object("pid.c", sp)), ("delete_object(c)", lambda: hs.delete_object("pid.c")),
+                                ("delete_if_invalid_object(spelling, wrong checksum)", lambda: hs.delete_if_invalid_object(
+                                    fhs.ObjectMetadata(None, sp, len(data), dict(m.hex_digests)), "0" * 64, "SHA-256", len(data))),
+                                ("delete_if_invalid_object(spelling, wrong size)", lambda: hs.delete_if_invalid_object(
+                                    fhs.ObjectMetadata(None, sp, len(data), dict(m.hex_digests)), m.hex_digests["sha256"], "SHA-256", len(data) + 1))):
+                    try:
+                        f()
+                        steps.append(what + " ok")
+                    except Exception as e:  # noqa: BLE001
+                        steps.append(what + " " + exn_name(e))
+                    got = {}
+                    for p_ in ("pid.a", "pid.b"):
+                        try:
+                            s_ = hs.retrieve_object(p_)
+                            got[p_] = s_.read() == data
+                            s_.close()
+                        except Exception as e:  # noqa: BLE001
+                            got[p_] = exn_name(e)
+                    run.case("search-cid-spelling", (d_, w_, sp[:12], what), sample={"search": "other spellings of a referenced object's cid", "spelling": sp[:16], "step": what, "served": got})
+                    if got != {"pid.a": True, "pid.b": True}:
+                        run.violation({"kind": "seq", "what": "cid-spelling"}, "after %s with the spelling %s... of the cid %s... of an object that pid.a and pid.b reference: retrieve_object gives %s" % (
+                            "; ".join(steps), sp[:12], cid[:12], got), {"depth": d_, "width": w_, "spelling": sp, "cid": cid, "steps": steps})
+                        break
+    finally:
+        shutil.rmtree(base, ignore_errors=True)
 
 
 def c06(run):
